@@ -412,10 +412,10 @@ func closureOps(c *Ctx, fn *ssa.Function, ops []XLockOp) ([]XLockOp, string) {
 							continue
 						}
 						n++
-						if ops[i].Kind != "rel" || len(ci.Common().Args) == 0 {
+						if ops[i].Kind != "rel" || len(BaselineArgs(ci.Common())) == 0 {
 							return nil, "closure " + FnName(cl) + " acquires a gate (not modelled)"
 						}
-						u, ok := ci.Common().Args[0].(*ssa.UnOp)
+						u, ok := BaselineArgs(ci.Common())[0].(*ssa.UnOp)
 						if !ok {
 							return nil, "closure " + FnName(cl) + ": released object is not a captured variable"
 						}
@@ -429,7 +429,7 @@ func closureOps(c *Ctx, fn *ssa.Function, ops []XLockOp) ([]XLockOp, string) {
 							}
 						}
 						fields = ops[i].Fields
-						clObj = Term(ci.Common().Args[0])
+						clObj = Term(BaselineArgs(ci.Common())[0])
 						if len(fields) == 1 {
 							clObj += "." + fields[0]
 						}
@@ -525,7 +525,7 @@ func c29Queue(c *Ctx) {
 			return false
 		}
 		b, ok := call.Call.Value.(*ssa.Builtin)
-		return ok && b.Name() == "append" && Term(call.Call.Args[0]) == "$r.q" && DependsOn(call.Call.Args[1], IsTerm("$0"))
+		return ok && b.Name() == "append" && Term(BaselineArgs(&call.Call)[0]) == "$r.q" && DependsOn(BaselineArgs(&call.Call)[1], IsTerm("$0"))
 	})
 	// close
 	cl := Q + "close"
